@@ -281,7 +281,7 @@ impl Report {
             exhaustive: true,
             bounds: json!({}),
             assumptions: Vec::new(),
-            notes: Vec::new(),
+            notes: std::env::var("VERIF_DA_PASS").map(|v| vec![format!("build-profile dimension: {v}")]).unwrap_or_default(),
             tally: Tally::new(),
             start: Instant::now(),
             machinery: Vec::new(),
@@ -326,7 +326,10 @@ impl Report {
             }
         }
 
-        let replay_dir = root.join("replays").join(&self.property);
+        // a secondary pass (the same check on a build with debug assertions enabled, see ./run)
+        // keeps its replays apart and does not write the evidence file
+        let secondary = std::env::var("VERIF_SECONDARY").is_ok();
+        let replay_dir = root.join("replays").join(if secondary { format!("{}-debug-assertions", self.property) } else { self.property.clone() });
         let _ = std::fs::remove_dir_all(&replay_dir);
         let mut lines = Vec::new();
         if !real.is_empty() {
@@ -394,9 +397,11 @@ impl Report {
         let ev_dir = root.join("evidence");
         let _ = std::fs::create_dir_all(&ev_dir);
         let ev_path = ev_dir.join(format!("{}.json", self.property));
-        if let Err(e) = std::fs::write(&ev_path, serde_json::to_string_pretty(&evidence).unwrap() + "\n") {
-            eprintln!("MACHINERY: cannot write {}: {e}", ev_path.display());
-            return 2;
+        if !secondary {
+            if let Err(e) = std::fs::write(&ev_path, serde_json::to_string_pretty(&evidence).unwrap() + "\n") {
+                eprintln!("MACHINERY: cannot write {}: {e}", ev_path.display());
+                return 2;
+            }
         }
 
         eprintln!(
@@ -756,4 +761,55 @@ where
         None => Ok(done.load(std::sync::atomic::Ordering::Relaxed)),
         Some(e) => Err(e.clone()),
     }
+}
+
+struct ExitHook(std::cell::RefCell<Option<Box<dyn FnOnce()>>>);
+
+impl Drop for ExitHook {
+    fn drop(&mut self) {
+        if let Some(f) = self.0.borrow_mut().take() {
+            f()
+        }
+    }
+}
+
+thread_local! {
+    static EXIT_HOOK: ExitHook = ExitHook(std::cell::RefCell::new(None));
+}
+
+/// The thread's life cycle is part of the environment of a call: runs `at_exit` from the
+/// destructor of a thread-local while the thread is exiting. With `hook_first` the harness's
+/// thread-local is registered before `before()` touches the library (so it is destroyed after
+/// whatever thread-locals the library created), otherwise after. A panic in `at_exit` is caught
+/// and reported as `Err`.
+pub fn run_at_thread_exit<T, B, F>(hook_first: bool, before: B, at_exit: F) -> Result<T, String>
+where
+    T: Send + 'static,
+    B: FnOnce() + Send + 'static,
+    F: FnOnce() -> T + Send + 'static,
+{
+    let (tx, rx) = std::sync::mpsc::channel::<Result<T, String>>();
+    let h = std::thread::spawn(move || {
+        let install = move || {
+            EXIT_HOOK.with(|h| {
+                *h.0.borrow_mut() = Some(Box::new(move || {
+                    let r = match std::panic::catch_unwind(std::panic::AssertUnwindSafe(at_exit)) {
+                        Ok(v) => Ok(v),
+                        Err(p) => Err(p.downcast_ref::<String>().cloned().or_else(|| p.downcast_ref::<&str>().map(|s| s.to_string())).unwrap_or_else(|| "panic".to_string())),
+                    };
+                    let _ = tx.send(r);
+                }))
+            })
+        };
+        IN_GUARD.with(|g| g.set(1));
+        if hook_first {
+            install();
+            before();
+        } else {
+            before();
+            install();
+        }
+    });
+    let _ = h.join();
+    rx.recv().unwrap_or_else(|_| Err("the exit hook did not report (the thread died before or inside it)".to_string()))
 }
